@@ -487,6 +487,10 @@ static char *numtxt(char *dst, size_t n, double v, vf_rng *r)
 	case 2: snprintf(dst, n, "%.3e", v); break;
 	default: snprintf(dst, n, "%.10g", v);
 	}
+	/* a shortened spelling of a value next to DBL_MAX may round beyond the range of double; such a
+	 * numeral is refused by the text conversion (C07: no silent saturation) and is not a well-formed
+	 * description any more: spell those values exactly */
+	if (isfinite(v) && !isfinite(strtod(dst, 0))) snprintf(dst, n, "%.17g", v);
 	return dst;
 }
 static double pick_num(vf_rng *r, int wild)
